@@ -229,9 +229,9 @@ func offCase(k cfg) harness.Case {
 
 func gen(c *harness.C) []harness.Case {
 	c.Note("rule", "public API only: for every (n,t) up to the bound a real DKG among n instances (synchronous wiring), every subset of size >= t aggregated by Verifier/Prover must verify under the reported key, every subset of size t-1 must not (BLS); for every position a consistently committed key off the polynomial must make every honest instance abort (t<n); 3 fresh polynomials per cell; distinct_nontrivial = distinct (cell, subset) and (cell, position)")
-	maxN, maxPS := 7, 4
+	maxN, maxPS := 8, 4
 	if c.Thorough() {
-		maxN, maxPS = 9, 5
+		maxN, maxPS = 10, 5
 	}
 	var cases []harness.Case
 	for n := 2; n <= maxN; n++ {
